@@ -139,6 +139,13 @@ def twosampleRelabel {α} (x1 x2 : List α) (magic : Nat) : List α :=
   | none => x1 ++ x2
   | some (_, i1, i2) => applyExchange x1.length (x1 ++ x2) i1 i2
 
+/-- the relabelling of the subject labels `0 .. n1+n2-1` (group 1 = first `n1` labels) -/
+def twosampleLabels (n1 n2 magic : Nat) : List Nat :=
+  twosampleRelabel (List.range n1) ((List.range n2).map (· + n1)) magic
+
+/-- the subjects that make up the first group after relabelling -/
+def twosampleGroup1 (n1 n2 magic : Nat) : List Nat := (twosampleLabels n1 n2 magic).take n1
+
 /-! ### Statistics -/
 
 def rabs (x : Rat) : Rat := if x < 0 then -x else x
@@ -372,7 +379,7 @@ def run : Toks → String
       | none => "bad-op"
   | "tsapply" :: rest =>
       match runP (do let a ← pNat; let b ← pNat; let m ← pNat; pure (a, b, m)) rest with
-      | some (a, b, m) => fmtNats (twosampleRelabel (List.range a) ((List.range b).map (· + a)) m)
+      | some (a, b, m) => fmtNats (twosampleLabels a b m)
       | none => "bad-op"
   | "os" :: name :: rest =>
       match runP (do let b ← pRat; let m ← pNat; let x ← pList pRat; pure (b, m, x)) rest with
